@@ -9,6 +9,7 @@ mod util;
 mod asyncsel;
 mod files;
 mod pkggen;
+mod md;
 
 fn main() {
     let engine = std::env::args().nth(1).expect("engine");
@@ -16,6 +17,7 @@ fn main() {
         "asyncsel" => asyncsel::handle,
         "files" => files::handle,
         "pkggen" => pkggen::handle,
+        "md" => md::handle,
         other => panic!("unknown engine {other}"),
     };
     // generators panic on purpose on some inputs; keep stderr quiet, the answer says `panic`
